@@ -60,10 +60,11 @@ def closure(case: Dict[str, Any], pins: Dict[str, Tuple[str, str]], from_inputs_
         if is_input or not from_inputs_only:
             work += [r for r in reqs if applies(r, set())]
     expanded: Dict[str, Set[str]] = {}
+    auto = case.get("_auto_extras") or {}     # compile-wide extras: requested of every required source-tree project
     while work:
         r = work.pop()
         k = canon(r.name)
-        new = set(x.lower() for x in r.extras)
+        new = set(x.lower() for x in r.extras) | set(auto.get(k, ()))
         first = k not in req_extras
         if first:
             req_extras[k] = set()
@@ -279,9 +280,34 @@ def _single_repository_only(f):
     compared with the model like every other case, their statement is C05's chain oracle"""
     def g(case, obs):
         if case.get("stack"):
-            return None
+            eff = effective_case(case)
+            if eff is None:
+                return None
+            return f(eff, obs)
         return f(case, obs)
     return g
+
+
+def effective_case(case: Dict[str, Any]) -> Optional[Dict[str, Any]]:
+    """a stack whose repositories offer disjoint sets of projects behaves like one repository; compile-wide extras are
+    requested of every required project of a source-tree layer"""
+    seen: Set[str] = set()
+    uni: Dict[str, Any] = {}
+    auto: Dict[str, Set[str]] = {}
+    for layer in case["stack"]:
+        ks = set(layer["universe"])
+        if ks & seen:
+            return None
+        seen |= ks
+        uni.update(layer["universe"])
+        if layer.get("source") and case.get("extras"):
+            for k in ks:
+                auto[k] = set(x.lower() for x in case["extras"])
+    eff = dict(case)
+    eff["universe"] = uni
+    eff["stack"] = None
+    eff["_auto_extras"] = auto
+    return eff
 
 
 ORACLES = {"C01": _single_repository_only(c01), "C02": _single_repository_only(c02), "C08": _single_repository_only(c08),
